@@ -9,6 +9,7 @@
 package main
 
 import (
+	"os"
 	"context"
 	"fmt"
 	"sort"
@@ -236,9 +237,25 @@ type sys struct {
 	keyVer map[string]uint64    // per probe key: highest served version seen so far
 }
 
-func newSys() *sys {
+// withIdleRegionStorage: the storage is built with a region storage (LevelDB) that is not
+// switched on (use-region-storage=false): saves, loads and deletes all go to the default kv.
+
+var rsSeq int
+
+func newSys(withIdleRegionStorage bool) *sys {
 	ctx, cancel := context.WithCancel(context.Background())
 	st := core.NewStorage(kv.NewMemoryKV())
+	if withIdleRegionStorage {
+		rsSeq++
+		dir := fmt.Sprintf("%s/verif-c06-%d-%d", tmpDir(), os.Getpid(), rsSeq)
+		rs, err := core.NewRegionStorage(ctx, dir, nil)
+		if err != nil {
+			panic(err)
+		}
+		st = core.NewStorage(kv.NewMemoryKV(), core.WithRegionStorage(rs))
+		cancel0 := cancel
+		cancel = func() { cancel0(); rs.Close(); os.RemoveAll(dir) }
+	}
 	rc := cluster.NewRaftCluster(ctx, "/pd/7/raft", 7, nil, nil, nil)
 	bc := core.NewBasicCluster()
 	rc.InitCluster(mockid.NewIDAllocator(), config.NewTestOptions(), st, bc)
@@ -246,6 +263,13 @@ func newSys() *sys {
 }
 
 func (s *sys) close() { s.cancel() }
+
+func tmpDir() string {
+	if fi, err := os.Stat("/dev/shm"); err == nil && fi.IsDir() {
+		return "/dev/shm"
+	}
+	return os.TempDir()
+}
 
 func (s *sys) served() []*core.RegionInfo {
 	l := s.rc.GetRegions()
@@ -478,7 +502,7 @@ func sequentialOutcomes(streams [][]snap) map[string]bool {
 	var rec func()
 	rec = func() {
 		if len(order) == total {
-			s := newSys()
+			s := newSys(false)
 			res := make([][]bool, len(streams))
 			for _, st := range order {
 				sn := streams[st][len(res[st])]
@@ -507,6 +531,7 @@ func sequentialOutcomes(streams [][]snap) map[string]bool {
 // ---- engine B model ----
 
 type model struct {
+	idle  bool // storage with a region storage that is not switched on
 	hs    []*thist
 	maxA  int
 	cur   int
@@ -536,7 +561,7 @@ func (m *model) Reset() {
 	if m.s != nil {
 		m.s.close()
 	}
-	m.s = newSys()
+	m.s = newSys(m.idle)
 	m.cur = -1
 }
 func (m *model) Enabled(op int) bool {
@@ -607,7 +632,7 @@ func concurrent(name string, hdepth, nstreams, per, pre int, tiers string, pick 
 				if allowed == nil {
 					allowed = sequentialOutcomes(streams)
 				}
-				s := newSys()
+				s := newSys(false)
 				var bad *hist.Violation
 				sched.OnPoint = func(t *sched.Thread) {
 					if bad == nil {
@@ -669,6 +694,7 @@ func main() {
 		HistScopes: []*hist.Scope{
 			{Name: "deliver/h2/len3", Tiers: "quick", Depth: 4, NewModel: func() hist.Model { return newModel(2) }},
 			{Name: "deliver/three/h2/len4", Tiers: "quick", Depth: 5, NewModel: func() hist.Model { return newModelFrom(2, true) }},
+			{Name: "deliver/h1/len4/idle-region-storage", Tiers: "quick", Depth: 5, NewModel: func() hist.Model { m := newModel(1); m.idle = true; return m }},
 			{Name: "deliver/h1/len5", Tiers: "quick", Depth: 6, NewModel: func() hist.Model { return newModel(1) }},
 			{Name: "deliver/h3/len4", Tiers: "thorough", Depth: 5, NewModel: func() hist.Model { return newModel(3) }},
 			{Name: "deliver/h2/len6", Tiers: "thorough", Depth: 7, NewModel: func() hist.Model { return newModel(2) }},
